@@ -263,6 +263,19 @@ def run_case(c):
                 if abs(v - ref) > 1e-12 * max(1.0, abs(ref)):
                     if len(viol) < 8:
                         viol.append(dict(d, mech="gkls:not-paraboloid-outside-balls", x=x.tolist(), calculate=float(v), paraboloid=ref, what="point on the boundary of the box"))
+        # a point inside ball i, then EXACTLY its minimiser (and the other way round): the prescribed value f_i, whatever was evaluated before
+        for i in range(1, 10):
+            u = rng.normal(size=n)
+            u /= np.sqrt((u ** 2).sum())
+            xin = M[i] + rho[i] * float(rng.uniform(0.05, 0.9)) * u
+            if np.any(np.abs(xin) > 1):
+                xin = M[i] + rho[i] * 1e-3 * u
+            bench.evaluate(p, xin)
+            v = bench.evaluate(p, M[i])
+            obs["minimiser_after_interior_point"] = obs.get("minimiser_after_interior_point", 0) + 1
+            if not (abs(v - f[i]) <= 1e-12 * max(1.0, abs(f[i]))):
+                if len(viol) < 8:
+                    viol.append(dict(d, mech="gkls:value-at-minimiser", i=i, calculate=float(v), prescribed=float(f[i]), what="evaluated right after a point inside the same ball"))
         obs["box_boundary_points"] = obs.get("box_boundary_points", 0) + nface
         obs["paraboloid_points"] = obs.get("paraboloid_points", 0) + npar
         # (3),(4) inside balls and across boundaries
@@ -312,7 +325,7 @@ def EXHAUSTIVE(tier):
 def finalize(obs, tier, stats):
     if obs.get("functions", 0) != 400:
         return "only %d of 400 functions audited" % obs.get("functions", 0), {}
-    for k in ("knuth_check", "box_boundary_points", "paraboloid_points", "interior_points", "boundary_pairs", "reference_values_compared", "live_instances_during_audit", "rebuild_constructions", "earlier_instances_reaudited", "regenerations", "regenerated_basin_values"):
+    for k in ("knuth_check", "minimiser_after_interior_point", "box_boundary_points", "paraboloid_points", "interior_points", "boundary_pairs", "reference_values_compared", "live_instances_during_audit", "rebuild_constructions", "earlier_instances_reaudited", "regenerations", "regenerated_basin_values"):
         if not obs.get(k):
             return "%s never observed" % k, {}
     if obs.get("max_constructions_of_one_pair", 0) < 5:
